@@ -15,6 +15,11 @@ Two closed worlds, both driven by engine S (vt.sched):
   only a part (environment answer).  Every function defined in cassandra/io/twistedreactor.py is
   preemptible at line granularity; twisted's own code is not traced.
 
+Large-message worlds (asyncio: params chunk / slow / prefill / line_cap; twisted: slow_bytes): messages of hundreds
+of chunks of the driver's real out_buffer_size against a peer that is fast, slow (one chunk per loop turn) or was
+stalled while earlier pushes piled up; the scheduling points can be restricted to the hand-over primitives
+(line_cap), because every chunk iteration would otherwise add several of them.
+
 The oracle (`judge`) is plain byte arithmetic on tagged messages and knows nothing of the driver.
 """
 import asyncio
@@ -42,25 +47,92 @@ logging.getLogger('asyncio').setLevel(logging.CRITICAL)
 
 N = 8                               # out_buffer_size used by both harnesses
 SIZES = (1, N - 1, N, N + 1, 2 * N + 1)
+REAL_CHUNK = ar.AsyncioConnection.out_buffer_size      # the driver's own chunk size (used by the large-message worlds)
 OPTIONS_V4 = b'\x04\x00\x00\x00\x05\x00\x00\x00\x00'      # v4 request header, stream 0, opcode OPTIONS, empty body
 
 
 # ------------------------------------------------------------------------------ messages + oracle
+BIG_LIMIT = 1 << 22                # largest taggable message (4 MiB)
+_BIG = {}
+_TUNED = []
+
+
+def _tune_malloc():
+    """Executions with megabyte messages allocate and free a few MB each; with glibc's default thresholds every one
+    of them maps and unmaps that memory again (page faults cost tens of ms per execution on a loaded VM, against
+    ~0.1 ms of copying).  Keep freed memory in the process instead.  Purely a cost matter; failure is ignored."""
+    if _TUNED:
+        return
+    _TUNED.append(True)
+    try:
+        import ctypes
+        libc = ctypes.CDLL(None)
+        libc.mallopt(-1, 1 << 28)       # M_TRIM_THRESHOLD
+        libc.mallopt(-3, 1 << 26)       # M_MMAP_THRESHOLD
+    except Exception:
+        pass
+
+
 def make_msg(mid, size):
-    """Message number `mid` (1..7): byte i is (mid << 5) | i, so every byte says whose it is and where
-    in the message it belongs."""
-    if not (1 <= mid <= 7 and 0 < size < 32):
+    """Message number `mid` (1..7).  Up to 31 bytes: byte i is (mid << 5) | i, so every byte says whose it is and
+    where in the message it belongs.  Larger messages (up to 4 MiB): every byte still carries mid in its top three
+    bits; the low five bits of bytes 4w..4w+3 are the four base-32 digits of w (least significant first), so every
+    aligned 4-byte word of the message is different from every other one and any loss / repetition / transposition
+    of pieces (of chunk size or not) changes the byte string."""
+    if not (1 <= mid <= 7 and 0 < size <= BIG_LIMIT):
         raise HarnessError('message id/size out of the tagging range: %r %r' % (mid, size))
-    return bytes(((mid << 5) | i) for i in range(size))
+    if size < 32:
+        return bytes(((mid << 5) | i) for i in range(size))
+    m = _BIG.get((mid, size))
+    if m is None:
+        if size >= 1 << 16:
+            _tune_malloc()
+        words = (size + 3) // 4
+        buf = bytearray(words * 4)
+        for j in range(4):
+            rep = 32 ** j                   # digit j of w: every value repeated 32**j times, period 32**(j+1)
+            period = b''.join(bytes([(mid << 5) | d]) * rep for d in range(32))
+            buf[j::4] = (period * (words // len(period) + 1))[:words]
+        m = _BIG[(mid, size)] = bytes(buf[:size])
+    return m
+
+
+_TOP3 = bytes(b >> 5 for b in range(256))
+
+
+def owners_in(data):
+    """The set of message numbers (top three bits) that occur in `data`."""
+    t = bytes(data).translate(_TOP3)
+    if t and t.count(t[:1]) == len(t):
+        return {t[0]}
+    return set(t)
 
 
 def name_of(m, names):
-    return names.get(m, m.hex())
+    n = names.get(m)
+    return n if n is not None else m.hex()
+
+
+def _lcp(a, ai, b, bi):
+    """Length of the longest common prefix of a[ai:] and b[bi:] (slice comparisons only)."""
+    n = min(len(a) - ai, len(b) - bi)
+    if a[ai:ai + n] == b[bi:bi + n]:
+        return n
+    lo, hi = 0, n                  # a[ai:ai+lo] == b[bi:bi+lo] holds, ...hi does not
+    while hi - lo > 1:
+        mid = (lo + hi) // 2
+        if a[ai + lo:ai + mid] == b[bi + lo:bi + mid]:
+            lo = mid
+        else:
+            hi = mid
+    return lo
 
 
 def render(wire, programs):
     """Readable form of a byte stream made of tagged messages: runs like pusher0#0[0:8] (bytes 0..7 of the
     first message of pusher0); bytes that belong to no tagged message in hex."""
+    if any(len(m) >= 32 for _, ms in programs for m in ms):
+        return _render_big(wire, programs)
     owner = {}
     for tname, ms in programs:
         for k, m in enumerate(ms):
@@ -77,6 +149,55 @@ def render(wire, programs):
         else:
             runs.append([who, at, None if at is None else at + 1, [b]])
     return ' '.join('%s[%d:%d]' % (w, a, e) if a is not None else 'raw(%s)' % bytes(bs).hex() for w, a, e, bs in runs)
+
+
+def _render_big(wire, programs, max_runs=40):
+    """render() for streams that contain large messages: maximal runs found by comparing with the messages."""
+    owner = {}
+    for tname, ms in programs:
+        for k, m in enumerate(ms):
+            if m != OPTIONS_V4:
+                owner[m[0] >> 5] = ('%s#%d' % (tname, k), m)
+    wire = bytes(wire)
+    runs, pos, raw = [], 0, bytearray()
+    cont = {}                      # owner -> where its previous run ended (preferred when the lookup is ambiguous)
+
+    def flush():
+        if raw:
+            runs.append('raw(%s)' % bytes(raw[:32]).hex() + ('..%dB' % len(raw) if len(raw) > 32 else ''))
+            del raw[:]
+
+    while pos < len(wire):
+        if len(runs) >= max_runs:
+            flush()
+            runs.append('...(%d more bytes)' % (len(wire) - pos))
+            break
+        ent = owner.get(wire[pos] >> 5)
+        off = -1
+        if ent is not None:
+            name, m = ent
+            if len(m) < 32:
+                off = wire[pos] & 31
+                if off >= len(m):
+                    off = -1
+            else:
+                for k in (16, 8, 4, 1):
+                    piece = wire[pos:pos + k]
+                    off = cont[name] if m.startswith(piece, cont.get(name, len(m))) else m.find(piece)
+                    if off >= 0:
+                        break
+        if off < 0:
+            raw.append(wire[pos])
+            pos += 1
+            continue
+        flush()
+        n = max(1, _lcp(wire, pos, m, off))
+        runs.append('%s[%d:%d]' % (name, off, off + n))
+        cont[name] = off + n
+        pos += n
+    else:
+        flush()
+    return ' '.join(runs)
 
 
 def judge(wire, programs):
@@ -100,7 +221,7 @@ def judge(wire, programs):
     pos = 0
     while pos < len(wire):
         m = by_first.get(wire[pos])
-        if m is None or wire[pos:pos + len(m)] != m:
+        if m is None or not wire.startswith(m, pos):
             out.append(('split', 'the socket bytes are not a sequence of whole messages (first break at offset %d): %s'
                         % (pos, render(wire, programs))))
             break
@@ -156,6 +277,12 @@ def programs_of(params):
         mid += 1
     if ms:
         progs.append(('loop', ms))
+    ms = []
+    for n in params.get('prefill') or ():
+        ms.append(make_msg(mid, n))
+        mid += 1
+    if ms:
+        progs.append(('earlier', ms))
     return progs
 
 
@@ -176,7 +303,7 @@ class Recorder(object):
             if kind == 'call':
                 call[x[0] >> 5] = i
             elif kind == 'sent':
-                for b in set(v >> 5 for v in x):
+                for b in owners_in(x):
                     last[b] = i
         ids = sorted(call)
         for a in ids:
@@ -230,6 +357,24 @@ def _worker(i):
 class PooledScheduler(sched.Scheduler):
     """vt.sched.Scheduler whose virtual threads are carried by reused OS threads; scheduling, choice
     points and replay are the base class's, only thread creation and the final join differ."""
+    line_cap = None            # None: every traced line is a scheduling point; k: only its first k executions per thread are
+    _line_hits = None
+
+    def _local(self, frame, event, arg):
+        if event == 'line':
+            cap = self.line_cap
+            if cap is not None:
+                hits = self._line_hits
+                if hits is None:
+                    hits = self._line_hits = {}
+                key = (self.current.tid if self.current is not None else -1, frame.f_code, frame.f_lineno)
+                n = hits.get(key, 0) + 1
+                hits[key] = n
+                if n > cap:
+                    return self._local
+            self.point('line', (frame.f_code.co_name, frame.f_lineno))
+        return self._local
+
     def spawn(self, target, name=None):
         vt = sched.VT(len(self.threads), name or 'T%d' % len(self.threads), target)
         w = _worker(vt.tid)
@@ -296,6 +441,9 @@ class VLoop(asyncio.BaseEventLoop):
         self.vs = None              # Scheduler while the explored phase runs
         self.later_left = 0         # how many more sock_sendall calls may be answered "not now"
         self.laters = 0
+        self.slow = 0               # slow peer: EVERY sock_sendall completes this many loop turns later (no choice)
+        self.slowed = 0
+        self.gate = None            # future: while set, the peer takes nothing (sock_sendall waits for it first)
         self.errors = []
         self.tasks = []
         self.set_exception_handler(self._on_error)
@@ -328,7 +476,13 @@ class VLoop(asyncio.BaseEventLoop):
 
     async def sock_sendall(self, sock, data):
         # environment: the socket takes everything at once, or nothing now (EAGAIN) and everything one
-        # loop turn later
+        # loop turn later; a stalled peer (gate) takes nothing until it resumes, a slow one (slow=k) takes every
+        # sendall k loop turns after it was issued
+        if self.gate is not None:
+            await self.gate
+        for _ in range(self.slow):
+            self.slowed += 1
+            await asyncio.sleep(0)
         if self.vs is not None and self.later_left > 0 and self.vs.choose(2, 'sendall-later'):
             self.later_left -= 1
             self.laters += 1
@@ -404,10 +558,19 @@ def run_asyncio(params, prefix, part):
     """One execution.  params: msgs = message sizes per pusher thread, loop = sizes pushed from the loop
     thread inside one callback (arriving at a schedule-chosen moment), cold = the pushers start while the
     connection's watcher coroutines and its OPTIONS push are still queued, later = how many sock_sendall
-    calls may be answered 'one turn later'."""
+    calls may be answered 'one turn later'.
+    Large-message worlds: chunk = out_buffer_size of this connection (default N; REAL_CHUNK = the class's own
+    value), slow = k: every sock_sendall completes k loop turns after it was issued (a peer that takes one chunk
+    per k turns), prefill = sizes of messages pushed EARLIER (by a thread of their own, before the explored
+    phase) while the peer was taking nothing: they sit in the connection's write path when the pushers start
+    and the peer resumes; line_cap = k: a source line of the reactor module is a scheduling point only the
+    first k times a thread executes it in this execution (None: always; 0: never, i.e. scheduling points only at the
+    hand-over primitives call_soon_threadsafe / loop turn / thread start and end)."""
     progs = programs_of(params)
     rec = Recorder()
-    s = PooledScheduler(prefix, focus_files=ASYNCIO_FOCUS_FILES, horizon=params.get('horizon', 4000))
+    cap = params.get('line_cap')
+    s = PooledScheduler(prefix, focus_files=() if cap == 0 else ASYNCIO_FOCUS_FILES, horizon=params.get('horizon', 4000))
+    s.line_cap = cap
     loop = VLoop()
     stub = _Ident()
     saved = (ar.AsyncioConnection._loop, ar.AsyncioConnection._loop_thread)
@@ -424,9 +587,26 @@ def run_asyncio(params, prefix, part):
         warm_sent = list(c._socket.sent)
         del c._socket.sent[:]
         del rec.ev[:]
+        if params.get('chunk'):
+            c.out_buffer_size = params['chunk']
+        earlier = [ms for tname, ms in progs if tname == 'earlier']
+        if earlier:
+            # pushed by another thread before the explored phase, while the peer takes nothing
+            loop.gate = loop.create_future()
+            for m in earlier[0]:
+                rec.ev.append(('call', m))
+                c.push(m)
+                rec.ev.append(('ret', m))
+            loop.drain(limit=100000)
+            if c._socket.sent:
+                raise HarnessError('the stalled fake socket accepted bytes')
         loop.vs = s
         loop.later_left = params.get('later', 0)
-        nthreads = len(progs)
+        loop.slow = params.get('slow', 0)
+        if loop.gate is not None:
+            gate, loop.gate = loop.gate, None
+            gate.set_result(None)           # the peer resumes: the parked sendall is the first ready handle
+        nthreads = len([1 for tname, _ in progs if tname != 'earlier'])
 
         def pusher(ms):
             def body():
@@ -471,7 +651,8 @@ def run_asyncio(params, prefix, part):
         lt = s.spawn(loop_body, 'loop')
         stub.ident = lt.os_thread.ident
         for tname, ms in progs:
-            s.spawn(io_body(ms) if tname == 'loop' else pusher(ms), tname if tname != 'loop' else 'io')
+            if tname != 'earlier':
+                s.spawn(io_body(ms) if tname == 'loop' else pusher(ms), tname if tname != 'loop' else 'io')
         s.run()
         sent = list(c._socket.sent)
         loop.errors.extend(loop.task_errors())
@@ -492,7 +673,7 @@ def run_asyncio(params, prefix, part):
         if t.exc is not None and not s.failure:
             extra += ' %s raised %r' % (t.name, t.exc)
     _judge_execution('asyncio', params, s, progs, b''.join(warm_sent + sent), len(sent), rec, part, extra,
-                     {'laters': loop.laters})
+                     {'laters': loop.laters, 'slowed_sendalls': loop.slowed})
     return s
 
 
@@ -510,6 +691,8 @@ class VReactor(object):
         self.transports = []
         self.partial_left = 0
         self.partials = 0
+        self.slow_bytes = 0        # slow peer: the socket takes at most this many bytes per doWrite (0: no limit)
+        self.slowed = 0
 
     def callFromThread(self, f, *a, **kw):
         self.calls.append((f, a, kw))
@@ -569,6 +752,9 @@ if _tw_abstract is not None:
         def writeSomeData(self, data):
             r = self.reactor
             n = len(data)
+            if r.slow_bytes and n > r.slow_bytes:
+                n = r.slow_bytes                # slow peer: never more than this per doWrite (no choice)
+                r.slowed += 1
             if r.vs is not None and n > 1 and r.partial_left > 0 and r.vs.choose(2, 'short-write'):
                 r.partial_left -= 1
                 r.partials += 1
@@ -596,6 +782,8 @@ class _TwLoopStub(object):
 def run_twisted(params, prefix, part):
     progs = programs_of(params)
     rec = Recorder()
+    if params.get('prefill') or params.get('chunk'):
+        raise HarnessError('prefill/chunk are parameters of the asyncio world')
     s = PooledScheduler(prefix, focus_files=TWISTED_FOCUS_FILES, horizon=params.get('horizon', 4000))
     r = VReactor(rec)
     saved = (tr.reactor, tr.TwistedConnection._loop)
@@ -618,6 +806,7 @@ def run_twisted(params, prefix, part):
         del rec.ev[:]
         r.vs = s
         r.partial_left = params.get('partial', 0)
+        r.slow_bytes = params.get('slow_bytes', 0)
         nthreads = len(progs)
 
         def pusher(ms):
@@ -671,7 +860,7 @@ def run_twisted(params, prefix, part):
         if t.exc is not None and not s.failure:
             extra += ' %s raised %r' % (t.name, t.exc)
     _judge_execution('twisted', params, s, progs, warm_sent + b''.join(sent), len(sent), rec, part, extra,
-                     {'partials': r.partials})
+                     {'partials': r.partials, 'slowed_writes': r.slowed})
     return s
 
 
@@ -698,6 +887,14 @@ def _judge_execution(reactor, params, s, progs, wire, nwrites, rec, part, extra,
         part.count('executions_with_several_pushes_inside_one_loop_callback')
         if min(lp) <= N < max(lp):
             part.count('executions_with_chunked_and_single_chunk_pushes_inside_one_loop_callback')
+    sizes = [n for m in params['msgs'] for n in m] + lp + list(params.get('prefill') or ())
+    chunk = params.get('chunk') or N
+    if sizes and max(sizes) >= 100 * chunk:
+        part.count('executions_with_message_of_100_or_more_chunks')
+    if params.get('slow') or params.get('slow_bytes'):
+        part.count('executions_with_slow_peer')
+    if params.get('prefill'):
+        part.count('executions_with_prefilled_write_path')
     part.count('socket_writes', nwrites)
     # which driver functions offered a line-level choice point (and to which thread) in this execution
     for fn in set(p.info[0] for p in s.trace if p.kind == 'line' and p.info):
@@ -706,6 +903,8 @@ def _judge_execution(reactor, params, s, progs, wire, nwrites, rec, part, extra,
     # prefer a sample that shows something: a preempted execution in which pushes overlapped
     kind = [reactor, bool(params.get('loop')), bool(params.get('cold')), len(params['msgs']),
             max([n for m in params['msgs'] for n in m] + list(params.get('loop') or ())) > N]
+    if sizes and max(sizes) >= 100 * chunk:
+        kind.append('large')
     if npre and rec.overlap(progs) and not any(x.get('kind') == kind for x in part.samples):
         runs = []
         for tid, _ in s.log:
@@ -724,6 +923,14 @@ def _describe(params):
         d += ' loop-thread pushes %r' % (params['loop'],)
     if params.get('cold'):
         d += ' cold start'
+    if params.get('chunk'):
+        d += ' out_buffer_size %d' % params['chunk']
+    if params.get('prefill'):
+        d += ' earlier pushes %r still in the write path (peer stalled until now)' % (params['prefill'],)
+    if params.get('slow'):
+        d += ' slow peer (every sendall takes %d loop turn(s))' % params['slow']
+    if params.get('slow_bytes'):
+        d += ' slow peer (<=%d bytes per doWrite)' % params['slow_bytes']
     return d
 
 
